@@ -166,6 +166,22 @@ Theorem C11_at_applied :
 Proof. exact @at_applied. Qed.
 Print Assumptions C11_at_applied.
 
+(* a rule registered by before / after / push is reported by get_all_rules and
+   get_active_rules straight away; a registration that raises changes nothing *)
+Theorem C11_registered_is_reported :
+  forall (F : Type) (r : ruler F) (o : op F) name,
+    match o with
+    | OpBefore _ n _ _ | OpAfter _ n _ _ | OpPush n _ _ => n = name
+    | _ => False
+    end ->
+    let '(r', out) := step r o in
+    match out with
+    | Ok _ => In name (all_names r') /\ In name (active_names r')
+    | _ => r' = r
+    end.
+Proof. exact @registered_is_reported. Qed.
+Print Assumptions C11_registered_is_reported.
+
 (* enable / disable twice = once: same rules, same (dropped) cache, same value
    returned or exception raised (rule names unique) *)
 Theorem C11_toggle_idempotent :
